@@ -1,6 +1,8 @@
 package props
 
 import (
+	z "github.com/Oudwins/zog"
+	"github.com/Oudwins/zog/conf"
 	"reflect"
 	"testing"
 
@@ -15,6 +17,8 @@ import (
 type c13Case struct {
 	Root  *model.Node `json:"root"`
 	Value model.Val   `json:"value"` // fully populated typed value of the destination type
+	// Global: the application configured its own global formatter (conf.IssueFormatter) before both executions
+	Global bool `json:"global,omitempty"`
 }
 
 // toMap renders the typed value as the map / list tree it would be decoded
@@ -57,6 +61,11 @@ func hasPosts(n *model.Node) (any, failing bool) {
 }
 
 func propC13(c c13Case) hh.Verdict {
+	if c.Global {
+		saved := conf.IssueFormatter
+		defer func() { conf.IssueFormatter = saved }()
+		conf.IssueFormatter = func(e *z.ZogIssue, ctx z.Ctx) { e.SetMessage("GLOBAL " + e.Code + " " + e.Dtype) }
+	}
 	c.Root.Number()
 	env := &model.Env{}
 	schema, typ := model.Build(c.Root, env)
@@ -140,7 +149,7 @@ func genC13(rt *rapid.T, cfg model.GenCfg, failingPost bool) c13Case {
 		g.Cfg.MaxDepth, g.Cfg.PPost, g.Cfg.NoCustom = 1, 0, true
 		root = sharedRoot(rt, g)
 		g.Cfg = saved
-		return c13Case{Root: root, Value: g.GenTyped(root)}
+		return c13Case{Root: root, Value: g.GenTyped(root), Global: rapid.IntRange(0, 3).Draw(rt, "global") == 0}
 	}
 	if !failingPost && rapid.IntRange(0, 4).Draw(rt, "linear") == 0 {
 		// schemas whose visit order is fixed (every struct has one field, slices go by index): the documented
@@ -162,7 +171,7 @@ func genC13(rt *rapid.T, cfg model.GenCfg, failingPost bool) c13Case {
 		}
 	}
 	root.Number()
-	return c13Case{Root: root, Value: g.GenTyped(root)}
+	return c13Case{Root: root, Value: g.GenTyped(root), Global: rapid.IntRange(0, 3).Draw(rt, "global") == 0}
 }
 
 func TestC13(t *testing.T) {
